@@ -56,6 +56,26 @@ def main():
                 out.write("#\n")
                 continue
             a = w[1:]
+            if op in ("sig", "sigsetmh", "sigmd5", "sigadd", "sigcopy"):
+                # modelled signature-object ops
+                si = int(a[0])
+                if op == "sig":
+                    G[si] = SourmashSignature(T[int(a[1])])
+                elif op == "sigsetmh":
+                    G[si].minhash = T[int(a[1])]
+                elif op == "sigmd5":
+                    G[si].md5sum(); hash(G[si]); str(G[si])
+                elif op == "sigadd":
+                    G[si].add_sequence(a[1], bool(int(a[2])))
+                elif op == "sigcopy":
+                    G[si] = pickle.loads(pickle.dumps(G[int(a[1])]))
+                ss = G[si]
+                mh = ss.minhash
+                keys = list(mh.hashes.keys())
+                k = mh.ksize if mh.is_dna else mh.ksize * 3
+                out.write(f"sig k={k} mins={','.join(map(str, keys))} md5 {ss.md5sum()} | "
+                          f"md5 {decode_str(ss.minhash._methodcall(lib.kmerminhash_md5sum))}\n")
+                continue
             if op.startswith("@"):
                 # signature-object ops: implementation only (no model counterpart)
                 if op == "@sig":
